@@ -108,14 +108,14 @@ Print Assumptions C18_active_roll_shape.
 (** ** The onset, offset and velocity rolls, for any note list
     (onset_t0 c n = start + onset_delay_ms/1000, onset_t1 c n = end + onset_delay_ms/1000,
      offset_t0 c n = min(end, total_time - offset_length_ms/1000); float arithmetic as in the code).
-    The hypotheses "0 <= frame" exclude the region where numpy's negative slice indices wrap
-    (a delayed onset more than window+1 frames before time 0), see notes/C18.md. *)
+    Onset frames are clamped at 0 (repo commit 05c4d11), so the onset theorems hold for every delay:
+    the set cells are "range intersected with the roll".  The remaining "0 <= frame" hypotheses concern
+    note / offset frames, which are negative only for negative times. *)
 
 (* any onset mode, any occupancy: a cell is set iff it lies in the roll and inside the onset frame
    range the loop computed for some in-range note *)
 Theorem C18_onset_cells : forall c notes,
   0 <= rows_of c -> 0 <= cols_of c ->
-  (forall n, In n notes -> in_range c n = true -> 0 <= fst (onset_frames c n) /\ 0 <= snd (onset_frames c n)) ->
   forall i p, 0 <= i -> 0 <= p ->
   (mget (onset_roll c notes) i p = true <->
    (i < rows_of c /\
@@ -128,7 +128,6 @@ Print Assumptions C18_onset_cells.
    w = int((start + delay/1000) * fps) *)
 Theorem C18_onset_frames : forall c notes,
   c_mode c = 0 -> gt0 (c_occ c) = false -> 0 <= rows_of c -> 0 <= cols_of c ->
-  (forall n, In n notes -> in_range c n = true -> 0 <= sframe (c_fps c) (onset_t0 c n) + c_window c + 1) ->
   forall i p, 0 <= i -> 0 <= p ->
   (mget (onset_roll c notes) i p = true <->
    (i < rows_of c /\
@@ -140,7 +139,6 @@ Print Assumptions C18_onset_frames.
 (* onset_mode 'length_ms': [int(t0*fps), max(int(t0*fps)+1, ceil(min(t1, t0 + length/1000)*fps))) inside the roll *)
 Theorem C18_onset_frames_length : forall c notes,
   c_mode c <> 0 -> gt0 (c_occ c) = false -> 0 <= rows_of c -> 0 <= cols_of c ->
-  (forall n, In n notes -> in_range c n = true -> 0 <= sframe (c_fps c) (onset_t0 c n)) ->
   forall i p, 0 <= i -> 0 <= p ->
   (mget (onset_roll c notes) i p = true <->
    (i < rows_of c /\
@@ -151,6 +149,18 @@ Theorem C18_onset_frames_length : forall c notes,
                        (PrimFloat.add (onset_t0 c n) (PrimFloat.div (c_onset_len_ms c) f1000)))))).
 Proof. exact onset_length_proof. Qed.
 Print Assumptions C18_onset_frames_length.
+
+(* the unclamped variant (the code before 05c4d11) marked onsets from the END of the roll: note at time 0,
+   100 fps, delay -50 ms, window 1 -> raw frames (0, -3), slice [0:-3] sets frame 20; the clamped code sets nothing
+   there and does not raise *)
+Theorem C18_unclamped_onset_refuted :
+  onset_frames_raw early_cfg early_note = (0, -3) /\
+  mget (paint (blank (rows_of early_cfg) 1 false) 0 (-3) 0 (fun _ => true)) 20 0 = true /\
+  onset_frames early_cfg early_note = (0, 0) /\
+  s2p early_cfg [early_note] [] <> inl 1 /\
+  forall i, In i [0; 1; 5; 20; 27; 30] -> mget (onset_roll early_cfg [early_note]) i 0 = false.
+Proof. exact unclamped_onset_refuted_proof. Qed.
+Print Assumptions C18_unclamped_onset_refuted.
 
 (* offsets: [int(t*fps), max(int(t*fps)+1, ceil((t + length/1000)*fps))) inside the roll, t = offset_t0 *)
 Theorem C18_offset_frames : forall c notes,
@@ -209,7 +219,6 @@ Print Assumptions C18_velocity_in_unit_interval.
 Theorem C18_weights_cells : forall c notes,
   0 <= rows_of c -> 0 <= cols_of c ->
   (forall n, In n notes -> in_range c n = true ->
-     0 <= f_on_s (note_frames c n) /\ 0 <= f_on_e (note_frames c n) /\
      0 <= f_start (note_frames c n) /\ 0 <= f_end (note_frames c n)) ->
   forall i p, 0 <= i -> 0 <= p ->
   zget (weights_roll c notes) i p =
